@@ -324,7 +324,10 @@ func oracleLockstepType(env *vh.Env, rep *vh.Report, facts lockFacts, c ctor) {
 		reps, sts, xs := 1, base, conflicts[:min(2, len(conflicts))]
 		why, flagged := sus[m]
 		if flagged || env.Thorough {
-			reps, sts, xs = 2, all, conflicts
+			reps, sts, xs = 1, all, conflicts
+			if flagged {
+				reps = 2
+			}
 			if env.Thorough && flagged {
 				reps = 6
 			}
